@@ -26,6 +26,7 @@ type Ctx struct {
 
 	// innerField: for a nested field name of Func ("memo.result") the struct type and field it names
 	innerField map[string][2]string
+	optRoles   map[*ssa.Function]map[int]string // option constructor -> parameter index -> "name" | "subtype" (OPTDELEG)
 
 	roleOfFn map[*ssa.Function]string
 }
